@@ -428,6 +428,8 @@ Definition call_table : list (string * effect) := [
   (* the engines: run on the session's cache and the LedgerStore getters *)
   ("call:sc.NewExecuteEngine", EEngine); ("call:engine.Invoke", EEngine);
   ("call:evm2.ApplyTransaction", EEngine); ("call:evm.ApplyMessage", EEngine);
+  (* operations on the session's own layers *)
+  ("call:statedb.Commit", EEngine); ("call:cache.Commit", EEngine); ("call:cache.Reset", EEngine);
   (* the committing steps of the block-adding path, under the names they have in the package *)
   ("call:overlay.CommitTo", EMutate MOverlayCommitTo);
   ("call:this.stateStore.NewBatch", EMutate MStateNewBatch);
